@@ -17,7 +17,9 @@ RULE = ("model tie: extracted Coq model of Hasher with align=true and of the ent
         "`create --align` on generated trees; the metafile is checked against the property directly: pad entry after a file iff "
         "the file does not end on a boundary, its length the exact gap, attr=p, every payload file starts on a piece boundary, "
         "pieces = SHA-1 hashing of the zero-padded stream, listed lengths account for exactly the recorded pieces, single file "
-        "hashed alone.  Non-trivial = distinct and hits a boundary class.")
+        "hashed alone; routes in turn: library with progress 0|1|2 (fresh / assemble() again on the same object, tree unchanged / "
+        "assemble() again after the payload changed, judged against the tree on disk at that moment) and the command line with "
+        "--prog 0|1|2 and --quiet.  Non-trivial = distinct and hits a boundary class.")
 TRUSTED_BASE = c01.TRUSTED_BASE
 ASSUMPTIONS = c01.ASSUMPTIONS
 
